@@ -59,7 +59,7 @@ class Ctx(object):
       self.actions_covered[a] = o + taken
     if must_cover:
       for a in must_cover:
-        if res.coverage.get(a, (0, 0))[0] == 0:
+        if res.coverage.get(a, (0, 0))[1] == 0:
           raise Machinery('vacuity: action %s never taken in %s' % (a, name))
 
   def sample(self, obj, limit=6):
